@@ -98,6 +98,8 @@ class Tail:
             self._atoms_of(t.operand)
         elif isinstance(t, ast.Name) and t.id in self.excvars():
             pass
+        elif _none_test(t) is not None and _none_test(t)[0] in self.excvars():
+            pass  # `exception is None` / `exception is not None`: the value of an exception variable, not an input
         else:
             self.atom(t)
 
@@ -128,6 +130,9 @@ class Tail:
                 return not ev(t.operand)
             if isinstance(t, ast.Name) and t.id in vals:
                 return vals[t.id] is not None
+            if _none_test(t) is not None and _none_test(t)[0] in vals:
+                nm_, isnone = _none_test(t)
+                return (vals[nm_] is None) == isnone
             return env[norm(t)]
 
         class Raised(Exception):
@@ -188,6 +193,16 @@ def classify_atom(k, f, single_names):
     if "found_single_file" in s or ("found" in s and "single" in s):
         return "single-found"
     return "other:" + k
+
+
+def _none_test(t):
+    """(`name`, True) for `name is None` / `name == None`, (`name`, False) for `name is not None` / `name != None`, else None"""
+    if isinstance(t, ast.Compare) and len(t.ops) == 1 and isinstance(t.left, ast.Name) and isinstance(t.comparators[0], ast.Constant) and t.comparators[0].value is None:
+        if isinstance(t.ops[0], (ast.Is, ast.Eq)):
+            return t.left.id, True
+        if isinstance(t.ops[0], (ast.IsNot, ast.NotEq)):
+            return t.left.id, False
+    return None
 
 
 def run(report, p):
